@@ -956,32 +956,25 @@ fn add_semi_join_reduction(
     }
 
     if let (Some(source_plan), true) = (source, !semi_on.is_empty()) {
-        // Use Inner Join instead of Semi Join because the physical planner's
-        // should_swap logic correctly builds from the smaller (right) side.
-        // The aggregate above ignores the extra columns from the source table.
+        // A SEMI join: the reduction may only REMOVE aggregate-input rows.
+        // (This used to be an Inner join, on the assumption that the outer
+        // correlation key is unique in its source. When it is not — two outer
+        // rows with the same key — every aggregate-input row was duplicated
+        // and COUNT/SUM came out multiplied.) The physical planner builds a
+        // Semi join from its right side when that side is the small one, so
+        // the filtered source still ends up as the build side.
         let agg_input_schema = agg.input.schema();
-        let source_schema = source_plan.schema();
-        // Reduction source LEFT: the physical planner builds the hash table
-        // from the left side, and the filtered dimension source is orders of
-        // magnitude smaller than the aggregate's input (Q20 built an 8.5M-row
-        // lineitem table to probe 1.1M partsupp rows when oriented the other
-        // way — the old orientation relied on the now-disabled should_swap).
-        let mut join_fields = source_schema.fields().to_vec();
-        join_fields.extend(agg_input_schema.fields().iter().cloned());
-        let join_schema = PlanSchema::new(join_fields);
-
-        let swapped_on: Vec<(Expr, Expr)> = semi_on.into_iter().map(|(i, o)| (o, i)).collect();
-        let inner_join = LogicalPlan::Join(JoinNode {
-            left: Arc::new(source_plan),
-            right: agg.input.clone(),
-            join_type: JoinType::Inner,
-            on: swapped_on,
+        let semi_join = LogicalPlan::Join(JoinNode {
+            left: agg.input.clone(),
+            right: Arc::new(source_plan),
+            join_type: JoinType::Semi,
+            on: semi_on,
             filter: None,
-            schema: join_schema,
+            schema: agg_input_schema,
         });
 
         return LogicalPlan::Aggregate(AggregateNode {
-            input: Arc::new(inner_join),
+            input: Arc::new(semi_join),
             group_by: agg.group_by.clone(),
             aggregates: agg.aggregates.clone(),
             schema: agg.schema.clone(),
